@@ -331,8 +331,6 @@ func (s *Session) Close() error {
 
 	close(s.shutdownCh)
 	s.dispatcher.post(func() {
-		s.shutdownLock.Lock()
-		defer s.shutdownLock.Unlock()
 		//firstly close eventConn
 		s.eventConn.close()
 
@@ -346,6 +344,10 @@ func (s *Session) Close() error {
 			stream.asyncGoroutineWg.Wait()
 		}
 
+		// the lock is only taken now: a callback goroutine waited for above may have run into the dead connection and
+		// reports that through exitErr, which needs the lock.
+		s.shutdownLock.Lock()
+		defer s.shutdownLock.Unlock()
 		if s.bufferManager != nil {
 			addGlobalBufferManagerRefCount(s.bufferManager.path, -1)
 		}
